@@ -449,3 +449,69 @@ package storage
 //@   ensures forall i int :: 0 <= i && i < len(r.Vals) ==> result.Vals[i] == r.Vals[i]
 //@   ensures forall i int :: 0 <= i && i < len(row.Vals) ==> result.Vals[len(r.Vals) + i] == row.Vals[i]
 //@   ensures result.Vals == nil || fresh(result.Vals)
+
+// ---- database / session level entry points as seen by the engine (C17) ----
+
+//@ ghost var storeState int
+//@ ghost var openStores int
+
+//@ func newFileStore(path string, autoFlushCache bool) (*fileStore, error)
+//@   props C17
+//@   trusted
+//@   modifies storeState, openStores, listLen, listAt, listPos, listOf
+//@   ensures err != nil ==> result0 == nil && openStores == old(openStores)
+//@   ensures err == nil ==> result0 != nil && fresh(result0) && result0.autoFlushCache == autoFlushCache && cacheOK(result0) &&
+//@              openStores == old(openStores) + (autoFlushCache ? 1 : 0)
+
+//@ func (f *fileStore) abandon()
+//@   props C17
+//@   trusted
+//@   modifies storeState, openStores
+//@   ensures openStores == old(openStores) - (f.autoFlushCache ? 1 : 0)
+
+//@ func (f *fileStore) open() error
+//@   props C17 C12
+//@   trusted
+//@   modifies f.lastKey, f.pageTableRoot, f.nextFreeOffset, f._nextLSN, storeState
+
+//@ func dbFilePath(db string) (string, bool, error)
+//@   props C17
+//@   trusted
+//@   pure
+//@   ensures db == "" ==> err == ErrDBNotSelected
+
+//@ func walFilePath(db string) (string, bool, error)
+//@   props C17
+//@   trusted
+//@   pure
+//@   ensures db == "" ==> err == ErrDBNotSelected
+
+//@ func newWal(db string, forceSync bool) (*wal, error)
+//@   props C17
+//@   trusted
+//@   modifies storeState
+//@   ensures err != nil ==> result0 == nil
+//@   ensures err == nil ==> result0 != nil && fresh(result0)
+
+//@ func OpenRelation(dbName string, forceWALSync bool) (*RelationService, error)
+//@   props C17
+//@   modifies storeState, openStores, listLen, listAt, listPos, listOf
+//@   ensures[err; C17] err != nil ==> result0 == nil && openStores == old(openStores)
+//@   ensures[ok; C17] err == nil ==> result0 != nil && fresh(result0) && openStores == old(openStores) + 1 && result0.fs != nil && result0.wal != nil
+
+//@ func CreateDB(dbName string) error
+//@   props C17
+//@   trusted
+//@   modifies storeState
+//@   allowpanic explicit
+
+//@ func ShowDB() ([]*Row, []*Field, error)
+//@   props C17
+//@   trusted
+//@   modifies storeState
+
+//@ func (rs *RelationService) Close() error
+//@   props C17
+//@   trusted
+//@   modifies storeState, openStores
+//@   ensures openStores == old(openStores) - 1
